@@ -35,6 +35,8 @@ template <typename T> struct HistCfg
     std::vector<T> grid;        // user grid (dims * (bins + 1)), flavour 2
     std::vector<T> weights;     // user weights, flavour 4
     std::string name1 = "d1", name2 = "two words";
+    std::size_t dbins = 5;      // binning of the first distribution and of the x axis of the second
+    T dmin = T(0), dmax = T(1);
     T peak = T(0.3), width = T(0.1);
 };
 
@@ -53,8 +55,9 @@ template <typename T> struct HistIntegrand
     {
         std::vector<T> const& x = coords(p);
         T v = hist_f_value(*c, x);
-        pr.add(0, x[0], v);
-        pr.add(1, x[0], x[x.size() - 1], v);
+        T px = c->dmin + x[0] * (c->dmax - c->dmin);
+        pr.add(0, px, v);
+        pr.add(1, px, x[x.size() - 1], v);
         return v;
     }
     static std::vector<T> const& coords(hep::mc_point<T> const& p) { return p.point(); }
@@ -73,8 +76,8 @@ template <typename T, typename E> struct Flavour<0, T, E>
     template <typename Cb> static chk_t run(HistCfg<T> const& c, chk_t const& chk, std::vector<std::size_t> const& calls, Cb cb)
     {
         HistIntegrand<T> f = {&c};
-        return hep::plain(hep::make_integrand<T>(f, c.dims, hep::make_dist_params<T>(5, T(0), T(1), c.name1),
-            hep::distribution_parameters<T>(3, 2, T(0), T(1), T(0), T(1), c.name2)), calls, chk, cb);
+        return hep::plain(hep::make_integrand<T>(f, c.dims, hep::make_dist_params<T>(c.dbins, c.dmin, c.dmax, c.name1),
+            hep::distribution_parameters<T>(3, 2, c.dmin, c.dmax, T(0), T(1), c.name2)), calls, chk, cb);
     }
 };
 
@@ -86,8 +89,8 @@ template <typename T, typename E> struct Flavour<1, T, E>
     template <typename Cb> static chk_t run(HistCfg<T> const& c, chk_t const& chk, std::vector<std::size_t> const& calls, Cb cb)
     {
         HistIntegrand<T> f = {&c};
-        return hep::vegas(hep::make_integrand<T>(f, c.dims, hep::make_dist_params<T>(5, T(0), T(1), c.name1),
-            hep::distribution_parameters<T>(3, 2, T(0), T(1), T(0), T(1), c.name2)), calls, chk, cb);
+        return hep::vegas(hep::make_integrand<T>(f, c.dims, hep::make_dist_params<T>(c.dbins, c.dmin, c.dmax, c.name1),
+            hep::distribution_parameters<T>(3, 2, c.dmin, c.dmax, T(0), T(1), c.name2)), calls, chk, cb);
     }
 };
 
@@ -136,7 +139,7 @@ template <typename T, typename E> struct Flavour<4, T, E>
     {
         HistIntegrand<T> f = {&c};
         return hep::multi_channel(hep::make_multi_channel_integrand<T>(f, c.dims, hist_map(c), c.dims, c.channels,
-            hep::make_dist_params<T>(5, T(0), T(1), c.name1), hep::distribution_parameters<T>(3, 2, T(0), T(1), T(0), T(1), c.name2)), calls, chk, cb);
+            hep::make_dist_params<T>(c.dbins, c.dmin, c.dmax, c.name1), hep::distribution_parameters<T>(3, 2, c.dmin, c.dmax, T(0), T(1), c.name2)), calls, chk, cb);
     }
 };
 
@@ -166,9 +169,16 @@ template <typename T> inline HistCfg<T> make_hist_cfg(Rng& rng)
     bool any = false;
     for (T w : c.weights) any = any || w != T();
     if (!any) c.weights[0] = T(1);
-    static char const* names[] = {"d1", "two words", "", " ", "  lead", "trail  ", "#x", "12 3"};
-    c.name1 = names[rng.below(8)];
-    c.name2 = rng.below(8) == 0 ? std::string(300, 'n') : std::string(names[rng.below(8)]);
+    static char const* names[] = {"d1", "two words", "", " ", "  lead", "trail  ", "#x", "12 3", "E_{\\nu} [GeV]", "\\n", "a\\b"};
+    c.name1 = names[rng.below(11)];
+    c.name2 = rng.below(8) == 0 ? std::string(300, 'n') : std::string(names[rng.below(11)]);
+    // binning: the unit range with 5 bins, or a one-decimal range with 3..9 bins (bin sizes that are not exact in binary)
+    if (rng.below(2))
+    {
+        c.dbins = rng.range(3, 9);
+        c.dmin = T(rng.range(0, 40)) / T(10) - T(2);
+        c.dmax = c.dmin + T(rng.range(1, 30)) / T(10);
+    }
     return c;
 }
 
